@@ -350,6 +350,29 @@ and the rendering parses to the same pattern (`RenderIdem.parse_render` is the t
       (match Pat.parsePattern extS (RoundTrip.renderOf p) with | .ok q => q == p | .error _ => false)
   | .error _ => false)
 
+
+/-! ### `slices.Sort` by its contract
+
+`Tree.Elems` ends with `slices.Sort(res)` and `node.add` with `append(ports, port); slices.Sort(ports)`; the model uses an
+insertion sort (`sortBy`) resp. a sorted insertion (`insertSorted`).  Nothing about pattern-defeating quicksort is
+needed: *any* function whose result is a sorted permutation of its input — the documented contract of `slices.Sort` —
+returns what the model returns, because a sorted permutation is unique. -/
+
+/-- **C06 (sort contract, Elems).** Whatever `slices.Sort` does, if its result `s` is a permutation of `l` and sorted
+(no element byte-lexicographically before its predecessor), it is the model's `sortBy Bytes.lt l`. -/
+theorem C06_sort_contract (l s : List Bytes) (hperm : l.Perm s) (hsorted : Node.SortedB s) : s = sortBy Bytes.lt l :=
+  (Node.sortBy_of_sorted hsorted hperm).symm
+
+/-- **C06 (sort contract, port lists).** If `s` is a sorted permutation of `append(ports, port)` and `ports` was sorted,
+`s` is the model's `insertSorted port ports`. -/
+theorem C06_sort_contract_ports (ports s : List Int) (port : Int) (hp : Node.SortedInts ports)
+    (hperm : (ports ++ [port]).Perm s) (hsorted : Node.SortedInts s) :
+    s = insertSorted (fun a b => decide (a < b)) port ports := by
+  have h1 : (insertSorted (fun a b => decide (a < b)) port ports).Perm s :=
+    (Node.insertSorted_perm port ports).trans ((List.perm_append_comm (l₁ := [port]) (l₂ := ports)).trans hperm)
+  exact (List.Perm.eq_of_pairwise (le := (· ≤ ·)) (fun a b _ _ hab hba => Int.le_antisymm hab hba)
+    (Node.insertSorted_int_sorted port ports hp) hsorted h1).symm
+
 #print axioms C06_ctor
 #print axioms C06_flags
 #print axioms C06_status
@@ -357,5 +380,8 @@ and the rendering parses to the same pattern (`RenderIdem.parse_render` is the t
 #print axioms C06_roundtrip
 #print axioms C06_stable
 #print axioms C06_stable_std
+
+#print axioms C06_sort_contract
+#print axioms C06_sort_contract_ports
 
 end Cors
